@@ -10,6 +10,7 @@ import Sqfs.Proofs.EncInodeRT
 import Sqfs.Proofs.EncWf
 import Sqfs.Proofs.EncDirIndex
 import Sqfs.Proofs.EncTables
+import Sqfs.Proofs.EncMetaPos
 import Sqfs.Proofs.EncXattr
 import Sqfs.Proofs.EncTree
 import Sqfs.Proofs.PackContent2
@@ -139,15 +140,21 @@ example : CodecOk (fun x => if x = [1, 1, 1, 1] then some [9] else none) (fun y 
     · simp only [hx, if_true, Option.some.injEq] at h; subst h; simp [hx]
     · simp [hx] at h
 
-/-- **A reference reads back the bytes written at its position.**  For the blocks of any finished meta writer run:
-the reference `(block start, offset)` of stream position `p` — every flushed block holds 8 KiB, so it is
-`(Σ on-disk sizes of the first p / 8192 blocks, p % 8192)`, which is what `sqfs_meta_writer_get_position` reports when
-`p` bytes have been appended (`writer_position`) — leads `sqfs_meta_reader_seek` + `read` to bytes `[p, p + n)` of the
-stream, across block boundaries, whatever the compressed sizes. -/
-theorem meta_ref_roundtrip {cmp : Codec} {unc : Unc} (hc : CodecOk cmp unc) (chunks : List Bytes) (p n : Nat)
-    (hp : p < chunks.flatten.length) (hn : p + n ≤ chunks.flatten.length) :
+/-- **A reference produced by the writer reads back the bytes written there.**  For any run of appends and any codec
+pair meeting the contract: (1) the position `sqfs_meta_writer_get_position` reports after the first `k` appends is the
+reference `refOfPos` computes from the finished run's blocks and the number `p` of bytes appended so far (every flushed
+block holds 8 KiB: `(Σ on-disk sizes of the first p / 8192 blocks, p % 8192)`); (2) `sqfs_meta_reader_seek` to the
+reference of **any** stream position `p` followed by a read of `n` bytes yields bytes `[p, p + n)` of the stream, across
+block boundaries, whatever the compressed sizes.  Together: what is appended right after the writer reported a reference
+is what a reader finds at that reference. -/
+theorem meta_ref_roundtrip {cmp : Codec} {unc : Unc} (hc : CodecOk cmp unc) (chunks : List Bytes) :
     let blocks := (Sqfs.MetaWriter.run cmp chunks).out
-    metaReadAt unc (encBlocks blocks) (refOfPos blocks p).1 (refOfPos blocks p).2 n = .ok ((chunks.flatten.drop p).take n) := by
+    (∀ k, Sqfs.MetaWriter.position ((chunks.take k).foldl (Sqfs.MetaWriter.append cmp) {})
+        = refOfPos blocks ((chunks.take k).flatten.length))
+    ∧ (∀ p n, p < chunks.flatten.length → p + n ≤ chunks.flatten.length →
+        metaReadAt unc (encBlocks blocks) (refOfPos blocks p).1 (refOfPos blocks p).2 n = .ok ((chunks.flatten.drop p).take n)) := by
+  refine ⟨fun k => writer_position cmp chunks k, ?_⟩
+  intro p n hp hn
   obtain ⟨hok, hraw⟩ := run_blocksOk cmp chunks
   have := metaReadAt_refOfPos hc _ hok (run_full cmp chunks) p n (by rw [hraw]; exact hp) (by rw [hraw]; exact hn)
   rw [hraw] at this
